@@ -150,7 +150,11 @@ class Evaluator:
                 return base[lo:hi:st]
             try:
                 return base[self.ev(e.slice)]
-            except (KeyError, IndexError, TypeError) as ex:
+            except (KeyError, IndexError) as ex:
+                if isinstance(base, (dict, list, tuple, str, bytes)):
+                    raise Raised(type(ex).__name__, e)
+                raise Unknown(f"subscript {unparse(e)}: {ex}")
+            except TypeError as ex:
                 raise Unknown(f"subscript {unparse(e)}: {ex}")
         if isinstance(e, ast.JoinedStr):
             out = ""
